@@ -7,16 +7,6 @@ namespace Orbit.Repl
 /-- no worker belongs to a cancelled request -/
 def Clean (s : St) : Prop := ∀ w ∈ s.workers, s.cancelled.contains w.ctx = false
 
-theorem tracked_of {s s' : St} (hl : ∀ k ∈ s.log, k ∈ s'.log)
-    (ht : ∀ k, task s k ≠ none → task s' k ≠ none ∨ k ∈ s'.failed)
-    (hf : ∀ k ∈ s.failed, k ∈ s'.failed) (h : Nat) : tracked s h → tracked s' h := by
-  rintro (h' | h' | h')
-  · exact Or.inl (hl h h')
-  · rcases ht h h' with h'' | h''
-    · exact Or.inr (Or.inl h'')
-    · exact Or.inr (Or.inr h'')
-  · exact Or.inr (Or.inr (hf h h'))
-
 variable {net : Nat → Info} {c : Nat} {s s' : St} {U : List Nat}
 
 theorem Move.stIn (hU : Closed net U) (hin : StIn U s) (m : Move net s s') : StIn U s' := by
@@ -34,18 +24,33 @@ theorem Move.stIn (hU : Closed net U) (hin : StIn U s) (m : Move net s s') : StI
     rcases List.mem_cons.1 hk with rfl | hk
     · exact h2
     · exact hin.failed k hk
-  | okForeign l1 l2 ctx hh hw hc hf =>
-    obtain ⟨h1, _⟩ := hsub hw
-    exact ⟨by rw [done_workers]; exact h1, by rw [done_failed]; exact hin.failed⟩
-  | ok l1 l2 ctx hh nw hw hc hf hnd hnew hcov =>
+  | fetchedForeign l1 l2 ctx hh hw hc hf =>
     obtain ⟨h1, h2⟩ := hsub hw
-    refine ⟨?_, by rw [done_failed]; exact hin.failed⟩
-    rw [done_workers, enqd_workers]
+    refine ⟨?_, hin.failed⟩
+    intro w hw'
+    have hw'' : w ∈ l1 ++ ⟨ctx, hh, .finishing⟩ :: l2 := hw'
+    rcases List.mem_append.1 hw'' with h' | h'
+    · exact h1 w (List.mem_append.2 (Or.inl h'))
+    · rcases List.mem_cons.1 h' with rfl | h'
+      · exact h2
+      · exact h1 w (List.mem_append.2 (Or.inr h'))
+  | fetched l1 l2 ctx hh nw hw hc hf hnd hnew hcov =>
+    obtain ⟨h1, h2⟩ := hsub hw
+    refine ⟨?_, hin.failed⟩
+    rw [enqd_workers]
     intro w hw'
     rcases List.mem_append.1 hw' with hw' | hw'
-    · exact h1 w hw'
+    · have hw'' : w ∈ l1 ++ ⟨ctx, hh, .finishing⟩ :: l2 := hw'
+      rcases List.mem_append.1 hw'' with h' | h'
+      · exact h1 w (List.mem_append.2 (Or.inl h'))
+      · rcases List.mem_cons.1 h' with rfl | h'
+        · exact h2
+        · exact h1 w (List.mem_append.2 (Or.inr h'))
     · obtain ⟨k, hk, rfl⟩ := mem_spawn.1 hw'
       exact hU hh h2 hf k (hnew k hk).1
+  | finish l1 l2 ctx hh hw =>
+    obtain ⟨h1, _⟩ := hsub hw
+    exact ⟨by rw [done_workers]; exact h1, by rw [done_failed]; exact hin.failed⟩
   | giveUp l1 l2 ctx hh hw hc =>
     obtain ⟨h1, h2⟩ := hsub hw
     refine ⟨by rw [flush_workers]; exact h1, ?_⟩
@@ -90,22 +95,23 @@ theorem Move.keeps (m : Move net s s') (h : Nat) : Orbit.Repl.tracked s h → Or
   cases m with
   | fail l1 l2 ctx hh hw hc =>
     exact hdel _ hh (failedDone_log _ _) (fun k => task_failedDone _ hh k) (failedDone_failed _ _)
-  | okForeign l1 l2 ctx hh hw hc hf =>
+  | fetchedForeign l1 l2 ctx hh hw hc hf =>
+    exact hset { s with workers := l1 ++ ⟨ctx, hh, .finishing⟩ :: l2 } hh .fetching
+      (fun k hk => hk) (fun k hk => hk) rfl
+  | fetched l1 l2 ctx hh nw hw hc hf hnd hnew hcov =>
+    refine hset _ hh .fetching (fun k hk => hk) ?_ rfl
+    intro k hk
+    rw [task_enqd]
+    by_cases e' : k ∈ nw
+    · simp [e']
+    · simp only [e', if_false]; exact hk
+  | finish l1 l2 ctx hh hw =>
     refine hset _ hh .fetched (fun k hk => by rw [done_log]; exact hk) ?_ (done_failed _ _)
     intro k hk
     rw [task_done]
     by_cases e : hh = k
     · simp [e]
     · simp only [e, if_false]; exact hk
-  | ok l1 l2 ctx hh nw hw hc hf hnd hnew hcov =>
-    refine hset _ hh .fetched (fun k hk => by rw [done_log]; exact hk) ?_ (done_failed _ _)
-    intro k hk
-    rw [task_done, task_enqd]
-    by_cases e : hh = k
-    · simp [e]
-    · by_cases e' : k ∈ nw
-      · simp [e, e']
-      · simp only [e, e', if_false]; exact hk
   | giveUp l1 l2 ctx hh hw hc =>
     refine hdel (flush (giveUpSt s (l1 ++ l2) hh)) hh (flush_log _) (fun k => ?_) (flush_failed _)
     rw [task_flush]
@@ -135,16 +141,30 @@ theorem Move.clean (m : Move net s s') (hcl : Clean s) : Clean s' ∧ s'.failed 
   | fail l1 l2 ctx hh hw hc =>
     have := hcl ⟨ctx, hh, .fetching⟩ (hw ▸ List.mem_append.2 (Or.inr List.mem_cons_self))
     rw [hc] at this; cases this
-  | okForeign l1 l2 ctx hh hw hc hf =>
-    exact ⟨by rw [done_workers]; exact hsub hw, done_failed _ _⟩
-  | ok l1 l2 ctx hh nw hw hc hf hnd hnew hcov =>
-    refine ⟨?_, done_failed _ _⟩
-    rw [done_workers, enqd_workers]
+  | fetchedForeign l1 l2 ctx hh hw hc hf =>
+    refine ⟨?_, rfl⟩
+    intro w hw'
+    have hw'' : w ∈ l1 ++ ⟨ctx, hh, .finishing⟩ :: l2 := hw'
+    rcases List.mem_append.1 hw'' with h' | h'
+    · exact hsub hw w (List.mem_append.2 (Or.inl h'))
+    · rcases List.mem_cons.1 h' with rfl | h'
+      · exact hc
+      · exact hsub hw w (List.mem_append.2 (Or.inr h'))
+  | fetched l1 l2 ctx hh nw hw hc hf hnd hnew hcov =>
+    refine ⟨?_, rfl⟩
+    rw [enqd_workers]
     intro w hw'
     rcases List.mem_append.1 hw' with hw' | hw'
-    · exact hsub hw w hw'
+    · have hw'' : w ∈ l1 ++ ⟨ctx, hh, .finishing⟩ :: l2 := hw'
+      rcases List.mem_append.1 hw'' with h' | h'
+      · exact hsub hw w (List.mem_append.2 (Or.inl h'))
+      · rcases List.mem_cons.1 h' with rfl | h'
+        · exact hc
+        · exact hsub hw w (List.mem_append.2 (Or.inr h'))
     · obtain ⟨k, hk, rfl⟩ := mem_spawn.1 hw'
       exact hc
+  | finish l1 l2 ctx hh hw =>
+    exact ⟨by rw [done_workers]; exact hsub hw, done_failed _ _⟩
   | giveUp l1 l2 ctx hh hw hc =>
     have := hcl ⟨ctx, hh, .waitSlot⟩ (hw ▸ List.mem_append.2 (Or.inr List.mem_cons_self))
     rw [hc] at this; cases this
@@ -159,17 +179,26 @@ theorem Move.clean (m : Move net s s') (hcl : Clean s) : Clean s' ∧ s'.failed 
       · exact hsub hw w (List.mem_append.2 (Or.inr h'))
   | deliver batch rest hp => exact ⟨hcl, rfl⟩
 
-/-- **termination with explicit fuel**: more than `pot U s` moves bring the replicator to
+/-- **termination with explicit fuel**: `pot U s` moves bring the replicator to
 quiescence; `Inv` holds there, the cancelled set is unchanged, no tracked hash is forgotten, and
 without workers of cancelled requests nothing is added to `failed`. -/
 theorem drain_spec (hc : 0 < c) (hU : Closed net U) : ∀ (n : Nat) (s : St), Inv net c s → StIn U s →
-    pot U s < n →
+    pot U s ≤ n →
     Inv net c (drain net n s) ∧ StIn U (drain net n s) ∧ (drain net n s).workers = [] ∧
     (drain net n s).pending = [] ∧ (drain net n s).cancelled = s.cancelled ∧
     (∀ h, tracked s h → tracked (drain net n s) h) ∧ (Clean s → (drain net n s).failed = s.failed) := by
   intro n
   induction n with
-  | zero => intro s _ _ h; omega
+  | zero =>
+    intro s hi hin h
+    have h0 : pot U s = 0 := Nat.le_zero.1 h
+    unfold pot potB at h0
+    have hw : s.workers = [] := by
+      cases hw : s.workers with
+      | nil => rfl
+      | cons w ws => rw [hw] at h0; simp [busy] at h0
+    have hp : s.pending = [] := List.eq_nil_of_length_eq_zero (by omega)
+    exact ⟨hi, hin, hw, hp, rfl, fun _ h => h, fun _ => rfl⟩
   | succ n ih =>
     intro s hi hin hp
     unfold drain
@@ -180,14 +209,16 @@ theorem drain_spec (hc : 0 < c) (hU : Closed net U) : ∀ (n : Nat) (s : St), In
     | some a =>
       simp only
       have m := pickMove_move hi hc hpm
-      have hlt := m.pot_lt hU hin
+      have hlt := m.pot_lt hi.toInvS hU hin
       obtain ⟨r1, r2, r3, r4, r5, r6, r7⟩ := ih (step net s a) (hi.step a) (m.stIn hU hin) (by omega)
       refine ⟨r1, r2, r3, r4, r5.trans m.cancelled_eq, fun h hh => r6 h (m.keeps h hh), ?_⟩
       intro hcl
       obtain ⟨c1, c2⟩ := m.clean hcl
       exact (r7 c1).trans c2
 
-/-- the explicit fuel bound -/
+/-- the explicit fuel bound (unchanged by the split of a fetch into `fetched` + `finish`: a
+fetching worker still weighs 2 — one for each of its two moves — and the single `LoadEnd` that a
+drain can emit is paid for by `busy`, not by every worker) -/
 def fuelBound (U : List Nat) (s : St) : Nat :=
   3 * U.length + (3 * U.length + 3) * s.workers.length + s.pending.length
 
@@ -203,10 +234,17 @@ theorem wsum_le (u : Nat) (canc : List Nat) (ws : List Worker) :
       cases pc <;> split <;> simp <;> omega
     omega
 
-theorem pot_le_fuelBound (U : List Nat) (s : St) : pot U s ≤ fuelBound U s := by
-  unfold pot fuelBound
+theorem potB_le_fuelBound (U : List Nat) (s : St) : potB U s ≤ fuelBound U s := by
+  unfold potB fuelBound
   have := fresh_le_length U s
   have := wsum_le U.length s.cancelled s.workers
+  omega
+
+/-- `fuelBound` moves bring any state to quiescence once exceeded: `fuelBound U s < n → pot U s ≤ n` -/
+theorem pot_le_fuelBound (U : List Nat) (s : St) : pot U s ≤ fuelBound U s + 1 := by
+  unfold pot
+  have := potB_le_fuelBound U s
+  have := busy_le s.workers
   omega
 
 end Orbit.Repl
